@@ -435,4 +435,13 @@ Proof.
     destruct (Hcells1 r Hr) as [Hxc|Hv]; [|right; exact Hv]. left. split; [exact Hxc|]. intros [Ht _]. congruence.
 Qed.
 
+Lemma col_upd_self_fun : forall s s' t c T C i f T2 C2,
+  col_upd s s' t c T C i f -> find_table O s' t = Some T2 -> find_col O (t_cols O T2) c = Some C2 ->
+  col_upd s s' t c T C i (col_get O C2) /\ c_info O C2 = i /\ t_rows O T2 = t_rows O T.
+Proof.
+  intros s s' t c T C i f T2 C2 [H1 [T' [C' [A1 [A2 [A3 [A4 [A5 [A6 [A7 A8]]]]]]]]]] Hf Hc.
+  assert (T' = T2) by congruence. subst T'. assert (C' = C2) by congruence. subst C'.
+  split; [|split; assumption]. split; [exact H1|]. exists T2, C2. repeat (split; [assumption|]). intros r _. reflexivity.
+Qed.
+
 End Cells.
